@@ -29,7 +29,7 @@ func vMAC(key *[32]byte, m []byte) (t [16]byte) {
 	return
 }
 
-//verif:stub golang.org/x/crypto/internal/poly1305.Sum
+// stubSum: C02 stub of internal/poly1305.Sum (registered through zz_verif_stubs.go, mode vC02).
 func stubSum(out *[16]byte, m []byte, key *[32]byte) {
 	if !verifrt.Symbolic() {
 		poly1305.Sum(out, m, key)
@@ -40,7 +40,7 @@ func stubSum(out *[16]byte, m []byte, key *[32]byte) {
 	vLogMsg = append([]byte{}, m...)
 }
 
-//verif:stub golang.org/x/crypto/internal/poly1305.Verify
+// stubVerify: C02 stub of internal/poly1305.Verify (registered through zz_verif_stubs.go).
 func stubVerify(mac *[16]byte, m []byte, key *[32]byte) bool {
 	if !verifrt.Symbolic() {
 		return poly1305.Verify(mac, m, key)
@@ -77,7 +77,7 @@ func vHSalsa(in *[16]byte, k *[32]byte, c *[16]byte) (out [32]byte) {
 	return
 }
 
-//verif:stub golang.org/x/crypto/salsa20/salsa.HSalsa20
+// stubHSalsa: C02 stub of salsa.HSalsa20 (registered through zz_verif_stubs.go).
 func stubHSalsa(out *[32]byte, in *[16]byte, k *[32]byte, c *[16]byte) {
 	if !verifrt.Symbolic() {
 		salsa.HSalsa20(out, in, k, c)
@@ -108,7 +108,7 @@ func vStream(n int, counter *[16]byte, key *[32]byte) []byte {
 	return out[:n]
 }
 
-//verif:stub golang.org/x/crypto/salsa20/salsa.XORKeyStream
+// stubXOR: C02 stub of salsa.XORKeyStream (registered through zz_verif_stubs.go).
 func stubXOR(out, in []byte, counter *[16]byte, key *[32]byte) {
 	if !verifrt.Symbolic() {
 		salsa.XORKeyStream(out, in, counter, key)
@@ -151,6 +151,7 @@ func vArr32() *[32]byte { var a [32]byte; verifrt.Fill(a[:]); return &a }
 // Poly1305 keys). Obligation: Open returns (nil, false), does not panic, and writes nothing
 // into out's spare capacity (the tag is verified before decryption starts).
 func c02Forge(nMsg, nBox2 int) {
+	vC02 = true // C02 abstractions (zz_verif_stubs.go)
 	vIdeal, vLogHave = true, false
 	key, nonce, msg := vArr32(), vArr24(), verifrt.Bytes(nMsg)
 	sealed := Seal(nil, msg, nonce, key)
@@ -192,6 +193,7 @@ func Verif_C02_SecretboxForge() {
 // on success the result is out | ct XOR keystream (bytes 32.. of the XSalsa20 stream); on
 // failure (nil, false) and nothing written. |ct| in {0,1,31,32,33,97}.
 func Verif_C02_SecretboxOpenIff() {
+	vC02 = true // C02 abstractions (zz_verif_stubs.go)
 	vIdeal = false
 	n := []int{0, 1, 31, 32, 33, 97}[verifrt.Choose(0, 5)]
 	key, nonce := vArr32(), vArr24()
